@@ -12,6 +12,10 @@ Replay specs
                                            edits: none | op:path[:arg];...      e.g.  cs:a/k.x;add:c:f
                                            (ops: add rm mv ty cs cd mt ch lt, quiet variants addq rmq mvq tyq; see treemodel.py)
   C12|<tree>|<input>/<filter>|<e1>|<e2>    chained history: build; e1; build; e2; build (the last build is judged)
+  C12|<tree>|<input>/<filter>/<root>/<fs>|...   the same in another environment: root: src | mkdir (the tree root is produced
+                                           by a mkdir command; history starts build, populate, build); fs: default |
+                                           device-agnostic | checksum-only (client file-system mode).  With a mkdir root the
+                                           edits may be the word `populate`: the build after populating is the judged one.
   C11|<style>|<path class>|<E|M>|<serial|par>|<history>   style: makefile | dependency-info | makefile-two-files;
                                            E/M: P initially present / missing; history: letters of m g t x c n u w q (see c11.py)
   C11m|<style>|<malformed id>
@@ -40,6 +44,47 @@ import c11  # noqa: E402
 import c12  # noqa: E402
 
 c11.VDEP = os.path.join(HBIN, "vdep")
+
+# Trees of C12's checksum-only cases live on a file system whose directories do not change size with their entry count
+# (tmpfs counts entries in st_size, which hands llbuild a change signal that a disk file system does not give).
+DISK_PARENT = os.environ.get("VERIF_WORLDX2_DISK", "/var/tmp")
+DISK_PREFIX = "verif-worldx2-"
+
+
+def setup_disk():
+    """Creates <DISK_PARENT>/verif-worldx2-<pid> if that file system keeps directory sizes constant; sweeps the
+    directories of dead harness processes.  Returns the path or None."""
+    import re
+    import shutil
+    try:
+        for d in os.listdir(DISK_PARENT):
+            m = re.match(re.escape(DISK_PREFIX) + r"(\d+)$", d)
+            if m and not os.path.exists("/proc/" + m.group(1)):
+                shutil.rmtree(os.path.join(DISK_PARENT, d), ignore_errors=True)
+        d = os.path.join(DISK_PARENT, DISK_PREFIX + "%d" % os.getpid())
+        if os.path.exists(d):
+            shutil.rmtree(d)
+        os.makedirs(d)
+        probe = os.path.join(d, "probe")
+        os.mkdir(probe)
+        s0 = os.lstat(probe).st_size
+        for n in ("a", "b", "k.x"):
+            open(os.path.join(probe, n), "w").close()
+        s1 = os.lstat(probe).st_size
+        shutil.rmtree(probe)
+        if s0 != s1:
+            shutil.rmtree(d, ignore_errors=True)
+            return None
+        return d
+    except OSError:
+        return None
+
+
+def cleanup():
+    import shutil
+    wx.cleanup()
+    if c12.DISK is not None:
+        shutil.rmtree(c12.DISK, ignore_errors=True)
 
 A_COMMON = [
     "every build runs in a new llbuild process (--serial unless stated) against build.db in the sandbox: a database restart "
@@ -73,6 +118,8 @@ def main():
         for exe in (wx.LLBUILD, wx.VCMD, c11.VDEP):
             if not os.path.exists(exe):
                 raise HarnessError("missing " + exe)
+        if args.prop == "C12" or (args.replay or "").startswith("C12|"):
+            c12.DISK = setup_disk()
         if args.replay:
             replay(args, res)
         elif args.prop == "C12":
@@ -84,13 +131,13 @@ def main():
     except HarnessError as e:
         print("HARNESS ERROR: %s" % e, file=sys.stderr)
         traceback.print_exc()
-        wx.cleanup()
+        cleanup()
         return 3
     except Exception:
         traceback.print_exc()
-        wx.cleanup()
+        cleanup()
         return 3
-    wx.cleanup()
+    cleanup()
     res.write(args.out)
     if args.replay:
         print("replay: %d violation(s)" % len(res.violations))
